@@ -444,35 +444,50 @@ def merge_rules(db, rep, rid="R7"):
     mb = db.mir.get(MERGE)
     rep.anchor(mb is not None, MERGE)
     rep.analysed(MERGE)
-    mcfg = Cfg(mb)
     adt = db.adt(CFGT)
     fields = [f["name"] for f in adt["variants"][0]["fields"]]
     ei, xi = ".%d" % fields.index("entry"), ".%d" % fields.index("exit")
     r = rep.rule(rid, "K5", "merge keeps the entry: it never assigns the entry field, no block is scheduled for merging before the "
-                 "successor was compared with the entry, and when the absorbed block was the exit the exit moves to the absorber")
-    writes = [(i, s_) for i, b in enumerate(mb["blocks"]) for s_ in b["s"] if len(s_["d"]) >= 3 and s_["d"][0] == 1 and s_["d"][-1] in (ei, xi)]
-    ew = [w for w in writes if w[1]["d"][-1] == ei]
-    xw = [w for w in writes if w[1]["d"][-1] == xi]
-    r.decide(not ew, "entry_not_written", db.where(mb, ew[0][1]["l"]) if ew else db.where(mb),
+                 "successor was compared with the entry, and when the absorbed block was the exit the exit moves to the absorber "
+                 "(merge is analysed together with the private helpers it is split into)")
+    import props.c15 as c15
+    unit = c15.unit_of(db, MERGE)
+    ew, xw = [], []
+    for u, sp in unit:
+        ub = db.mir[u]
+        for i, b in enumerate(ub["blocks"]):
+            for s_ in b["s"]:
+                if len(s_["d"]) >= 3 and s_["d"][0] == sp and s_["d"][-1] in (ei, xi):
+                    (ew if s_["d"][-1] == ei else xw).append((ub, s_))
+    r.decide(not ew, "entry_not_written", db.where(ew[0][0], ew[0][1]["l"]) if ew else db.where(mb),
              "merge assigns the entry: the block at the function address can be absorbed by a predecessor and execution starts elsewhere")
     r.decide(len(xw) == 1, "exit_follows_absorber", db.where(mb), "merge must move the exit to the absorbing block exactly once")
-    ecalls = calls(mb, CFGT + "::entry")
-    pushes = calls(mb, "Vec::<T, A>::push")
-    mpush = [i for i, t in pushes]
-    ok = bool(ecalls) and bool(mpush) and all(p not in mcfg.reachable(0, avoid=[e for e, _ in ecalls]) for p in mpush[:1])
-    r.decide(ok, "entry_compared", db.where(mb, ecalls[0][1]["l"]) if ecalls else db.where(mb),
+    # scheduling: the push of a (absorber, absorbed) pair is preceded by the comparison with the entry, in the same function or in
+    # the helper that selects the candidate
+    cmp_fns = [u for u, _sp in unit if calls(db.mir[u], CFGT + "::entry")]
+    push_fns = [u for u, _sp in unit if calls(db.mir[u], "Vec::<T, A>::push")]
+    ok = bool(cmp_fns) and bool(push_fns)
+    where_ = db.where(mb)
+    for pf in push_fns[:1]:
+        pb = db.mir[pf]
+        pcfg = Cfg(pb)
+        first_push = calls(pb, "Vec::<T, A>::push")[0][0]
+        gate = [i for i, t in calls(pb, CFGT + "::entry")] + [i for i, t in mir_calls(pb) if (mir_callee(t) or "") in cmp_fns and (mir_callee(t) or "") != pf]
+        ok = ok and bool(gate) and first_push not in pcfg.reachable(0, avoid=gate)
+        where_ = db.where(pb, pb["blocks"][gate[0]]["t"]["l"]) if gate else db.where(pb)
+    r.decide(ok, "entry_compared", where_,
              "a merge can be scheduled without the successor having been compared with the entry vertex")
     cmp_ok = False
-    for c in db.closures_of(MERGE):
-        cbody = db.mir.get(c)
-        if cbody is None:
-            continue
-        for b in cbody["blocks"]:
-            for s_ in b["s"]:
-                if s_.get("rv", {}).get("k") == "BinaryOp" and s_["rv"].get("op") == "Eq":
-                    cmp_ok = True
+    for u in cmp_fns:
+        for c in [u] + list(db.closures_of(u)):
+            cbody = db.mir.get(c)
+            if cbody is None:
+                continue
+            for b in cbody["blocks"]:
+                for s_ in b["s"]:
+                    if s_.get("rv", {}).get("k") == "BinaryOp" and s_["rv"].get("op") == "Eq":
+                        cmp_ok = True
     r.decide(cmp_ok, "entry_equality", db.where(mb), "the entry comparison must be an equality with the successor")
-
 
 
 def evalg(e, env, lets, depth=0):
